@@ -427,8 +427,10 @@ func (evpool *Pool) removeExpiredPendingEvidence() (int64, time.Time) {
 			}
 
 			// return the height and time with which this evidence will have expired so we know when to prune next
-			return ev.Height() + evpool.State().ConsensusParams.Evidence.MaxAgeNumBlocks + 1,
-				ev.Time().Add(evpool.State().ConsensusParams.Evidence.MaxAgeDuration).Add(time.Second)
+			// (Update prunes once the height is greater than, and the time after, these values,
+			// which is exactly when isExpired becomes true for this evidence.)
+			return ev.Height() + evpool.State().ConsensusParams.Evidence.MaxAgeNumBlocks,
+				ev.Time().Add(evpool.State().ConsensusParams.Evidence.MaxAgeDuration)
 		}
 		evpool.removePendingEvidence(ev)
 		blockEvidenceMap[evMapKey(ev)] = struct{}{}
